@@ -4,6 +4,7 @@ package frr
 
 import (
 	"net"
+	"reflect"
 	"strconv"
 	"strings"
 
@@ -674,7 +675,7 @@ func VerifFRRTextSample(k int) {
 			func() (*bgp.Advertisement, vhReq) { return mk("10.0.0.0/24", lp, vhC1) })
 		add(base("192.168.1.1", 64600))
 	default:
-		add(base("fc00::2", 64512), func() (*bgp.Advertisement, vhReq) { return mk("fd00:0:0:1::/64", lp2, vhC1) },
+		add(base("fc00::2", 64512), func() (*bgp.Advertisement, vhReq) { return mk("fd00:0:0:1::/64", lp2, vhLarge, vhC2) },
 			func() (*bgp.Advertisement, vhReq) { return mk("fd00::/64", lp, vhC1, vhC2) })
 		add(base("192.168.1.1", 64600), func() (*bgp.Advertisement, vhReq) { return mk("fd00::/64", 0) })
 	}
@@ -685,4 +686,41 @@ func VerifFRRTextSample(k int) {
 	vr.Observe("frr.conf", text)
 	vhCheckText(vhParseFRR(text), sess)
 	vr.Reach("frr text sample checked")
+}
+
+func init() {
+	verifHarnesses["VerifFRRSetRefused"] = func(a []int) { VerifFRRSetRefused() }
+}
+
+// VerifFRRSetRefused (C14, histories): the configuration is a function of what was last ACCEPTED on every
+// session. A Set refused by validation (an advertisement with more than 63 communities) or by a
+// configuration error leaves the session's accepted advertisements untouched: a configuration generated
+// afterwards (for any reason) still offers the neighbor what the last accepted Set requested.
+func VerifFRRSetRefused() {
+	sess := vhSessions(2, 2, 0)
+	sm := vhManager(sess, false)
+	var s0 *session
+	for _, s := range sm.sessions {
+		if s.PeerAddress == sess[0].params.PeerAddress {
+			s0 = s
+		}
+	}
+	vr.Assert(s0 != nil, "session not found")
+	vr.Assert(s0.Set(sess[0].advs...) == nil, "an acceptable Set was refused")
+	before, err := sm.createConfig()
+	vr.Assert(err == nil, "createConfig failed")
+	// a Set that must be refused: a valid advertisement followed by one with 64 communities
+	bad := &bgp.Advertisement{Prefix: sess[0].advs[0].Prefix, LocalPref: sess[0].advs[0].LocalPref}
+	for i := 0; i < 64; i++ {
+		bad.Communities = append(bad.Communities, vhC1)
+	}
+	pos := vr.Choose(2)
+	list := []*bgp.Advertisement{sess[0].advs[1], bad}
+	if pos == 0 {
+		list = []*bgp.Advertisement{bad, sess[0].advs[1]}
+	}
+	vr.Assert(s0.Set(list...) != nil, "an advertisement with 64 communities was accepted")
+	after, err := sm.createConfig()
+	vr.Assert(vhAll(err == nil, reflect.DeepEqual(before, after)), "a refused Set changed what the session advertises")
+	vr.Reach("refused Set left the session untouched")
 }
